@@ -12,7 +12,7 @@
   `lfs.clean p=<hex>` → hex of `path.Clean(p)`; `lfs.base p=<hex>` → hex of `path.Base(basename(p))` and of `basename(p)`;
   `lfs.sort names=<hex>,…` → the names as `readDirNames` orders them.
 -/
-import Driver.Lfs
+import Driver.AsmAccept
 import Desync.Model.LocalFSRead
 
 namespace Driver
@@ -62,7 +62,7 @@ def cmdLfsRead (a : Args) : String :=
         else "ok " ++ String.intercalate ";" (recs.map frecStr)
   | none => "bad-case"
 
-def runLine6 (l : String) : String :=
+def runLine8 (l : String) : String :=
   match l.splitOn " " with
   | "lfs.read" :: rest => cmdLfsRead (parseArgs rest)
   | "lfs.clean" :: rest =>
@@ -78,6 +78,6 @@ def runLine6 (l : String) : String :=
     (match hs.mapM ofHex with
      | some ns => String.intercalate "," ((sortBy id ns).map toHex)
      | none => "bad-case")
-  | _ => runLine5 l
+  | _ => runLine7 l
 
 end Driver
